@@ -40,12 +40,18 @@ def run_cli(workdir, jobs, timeout=15, workers=None):
         cwd = os.path.join(proj, j.get("cwd", ""))
         res = {"timeout": False}
         t0 = time.time()
+        stdin, keep = subprocess.DEVNULL, None
+        if j.get("stdin_open"):          # a terminal nobody types at: the input stays open and silent
+            stdin, keep = os.pipe()
         try:
-            p = subprocess.run([binp] + j["argv"], cwd=cwd, env=env, stdin=subprocess.DEVNULL, stdout=subprocess.PIPE,
+            p = subprocess.run([binp] + j["argv"], cwd=cwd, env=env, stdin=stdin, stdout=subprocess.PIPE,
                                stderr=subprocess.PIPE, timeout=j.get("timeout", timeout))
             res.update(rc=p.returncode, out=p.stdout.decode("utf-8", "replace"), err=p.stderr.decode("utf-8", "replace"))
         except subprocess.TimeoutExpired as e:
             res.update(rc=None, timeout=True, out=(e.stdout or b"").decode("utf-8", "replace"), err=(e.stderr or b"").decode("utf-8", "replace"))
+        if keep is not None:
+            os.close(keep)
+            os.close(stdin)
         res["wall_ms"] = int((time.time() - t0) * 1000)
         if j.get("linger"):          # give processes the command may have left behind the time to show themselves
             time.sleep(j["linger"])
